@@ -120,5 +120,10 @@ theorem readAll_append (k : Kind) (e : Endian) (bs : List UInt8) (a b : List ROp
   | nil => simp [readAll]
   | cons op r ih => simp [readAll, ih]
 
+theorem valid_lt (t : Ty) (v : Nat) (hv : ValidBits t v) : v < 256 ^ sizeofT t := by
+  by_cases hb : t = .b
+  · subst hb; simp [ValidBits] at hv; simp [sizeofT]; omega
+  · simpa [ValidBits, hb] using hv
+
 
 end AslProofs.StreamSpec
